@@ -135,3 +135,98 @@ TRUSTED_BASE = [
     'Python generator of definitions (gen/defs.py): both serialisations of a definition tree',
     'ASCII non-raw identifiers; user types opaque; hooks use the public API only and are deterministic in the history',
 ]
+
+
+# ---------------------------------------------------------------------------------------
+# Which parts of the ties a property's theorems consume (DESIGN §6).
+
+EVERYTHING_FE = {'name', 'initial', 'context', 'async', 'states', 'PARSE', 'VALIDATE', 'EXPAND', 'PANIC', 'DEADPATH', '<missing>', '<end>'}
+
+FE_PARTS = {
+    # front-end dump line kinds / edge fields -> properties whose theorems read them
+    'storage': {'C08', 'C10', 'C11', 'C14', 'C17', 'C18', 'C02'},
+    'lookup': {'C07', 'C13', 'C14', 'C18'},
+    'ancestors': {'C07', 'C13', 'C14', 'C18'},
+    'initial_child': {'C07', 'C13', 'C14', 'C18'},
+    'superstate': {'C07', 'C13'},
+    'event': {'C13', 'C14', 'C12'},
+    'transition': {'C13', 'C14', 'C07'},
+    'edge.set': {'C01', 'C02', 'C07', 'C09', 'C13', 'C14'},
+    'edge.src': {'C01', 'C02', 'C07', 'C09', 'C13'},
+    'edge.tgt': {'C01', 'C02', 'C07', 'C09', 'C13'},
+    'edge.ev': {'C01', 'C02', 'C09', 'C12', 'C13'},
+    'edge.g': {'C03', 'C04', 'C05', 'C12'},
+    'edge.u': {'C03', 'C04', 'C05', 'C12'},
+    'edge.b': {'C04'},
+    'edge.a': {'C04'},
+    'edge.ar': {'C04', 'C06', 'C12'},
+    'edge.p': {'C04', 'C14', 'C16', 'C02'},
+}
+
+def fe_relevant(pid, diff):
+    """does a front-end (T1) mismatch touch what property pid's theorems consume?"""
+    parts = diff.get('fe_parts') or ['<missing>']
+    for part in parts:
+        if part in EVERYTHING_FE or part not in FE_PARTS:
+            return True
+        if pid in FE_PARTS[part]:
+            return True
+    return False
+
+OP_PROPS = {
+    'handle': {'C01', 'C03', 'C04', 'C05', 'C06', 'C08', 'C09', 'C12', 'C15', 'C16', 'C19'},
+    'habandon': {'C15', 'C16', 'C19'},
+    'hnopoll': {'C15', 'C16', 'C19'},
+    'tcall': {'C03', 'C04', 'C05', 'C06', 'C08', 'C09', 'C12', 'C15', 'C16'},
+    'tabandon': {'C15', 'C16'},
+    'tnopoll': {'C15', 'C16'},
+    'newdyn': {'C01', 'C08', 'C10', 'C16'}, 'newtyped': {'C08', 'C16', 'C02'}, 'default': {'C10', 'C01', 'C08'},
+    'state': {'C01', 'C19', 'C12'},
+    'read': {'C11', 'C19', 'C08'}, 'write': {'C11', 'C19', 'C08'}, 'set': {'C11', 'C19', 'C08', 'C12'},
+    'into': {'C10', 'C16', 'C19'}, 'todyn': {'C10', 'C16'},
+    'tdata': {'C08', 'C02'}, 'tdatamut': {'C08'}, 'topt': {'C08'}, 'toptmut': {'C08'},
+    'drop': {'C16'},
+}
+
+COMPONENT_PROPS = {
+    # which component of a call's observation differs -> properties reading it
+    'res': {'C01', 'C03', 'C04', 'C05', 'C06', 'C09', 'C12', 'C15', 'C19'},
+    'trace.ab': {'C04', 'C06', 'C09', 'C15', 'C16'},
+    'trace.aa': {'C04', 'C06', 'C09', 'C15', 'C16'},
+    'trace.cond': {'C03', 'C04', 'C05', 'C09', 'C15', 'C16'},
+    'trace.before': {'C04', 'C05', 'C08', 'C09', 'C15', 'C16'},
+    'trace.after': {'C04', 'C05', 'C08', 'C09', 'C15', 'C16'},
+    'drops': {'C16', 'C19'},
+    'obs': {'C01', 'C05', 'C08', 'C10', 'C11', 'C19'},
+}
+
+def t3_relevant(pid, diff):
+    """does an implementation-vs-model disagreement on one operation line touch what pid consumes?"""
+    op = (diff['ops'][-1].split() or ['?'])[0]
+    if pid not in OP_PROPS.get(op, set()):
+        return False
+    if op not in ('handle', 'tcall', 'habandon', 'tabandon'):
+        return True
+    a = diff['impl'].split(' | ')
+    b = diff['model'].split(' | ')
+    if len(a) != 4 or len(b) != 4:
+        return True
+    comps = set()
+    if a[0] != b[0]:
+        comps.add('res')
+    if a[1] != b[1]:
+        ka = [c.split('/')[0] for c in a[1].split()]
+        kb = [c.split('/')[0] for c in b[1].split()]
+        ca, cb = a[1].split(), b[1].split()
+        for i in range(max(len(ca), len(cb))):
+            x = ca[i] if i < len(ca) else None
+            y = cb[i] if i < len(cb) else None
+            if x != y:
+                for z in (x, y):
+                    if z:
+                        comps.add('trace.' + z.split('/')[0])
+    if a[2] != b[2]:
+        comps.add('drops')
+    if a[3] != b[3]:
+        comps.add('obs')
+    return any(pid in COMPONENT_PROPS.get(c, set()) for c in comps)
